@@ -223,7 +223,7 @@ package smgp30
 //@     invariant packet.rinv(b)
 //@     invariant 0 <= i && i <= int(s.DestTermIDCount)
 //@     invariant len(s.DestTermID) == entry(len(s.DestTermID)) + i
-//@     invariant entry(cap(s.DestTermID)) == 0 ==> fresh(s.DestTermID) || cap(s.DestTermID) == 0
+//@     invariant old(cap(s.DestTermID)) == 0 ==> fresh(s.DestTermID) || cap(s.DestTermID) == 0
 //@     invariant @reuse kept(s.DestTermID)
 //@     invariant entry(packet.rfailed(b)) ==> packet.rfailed(b)
 //@     invariant !packet.rfailed(b) ==> len(packet.rem(b)) <= entry(len(packet.rem(b)))
